@@ -113,6 +113,9 @@ def gen_script(rng, cfg, pnames=("P1",)):
     else:
         stop = {"kind": "time_lt", "T": dur_default * rng.randint(1, rm + 2) + 0.5}   # a (virtual) time budget per variation
     out = {"skips": skips, "dur_default": dur_default, "durs": durs, "stop": stop}
+    kg = rng.choice([None, None, "np", "np", "int"])
+    if kg:
+        out["kg_form"] = kg
     hist = rng.choice([None, None, None, "fresh", "reused", "reused"])     # an array-valued sum result, possibly from a reused buffer
     if hist:
         out["hist"] = hist
@@ -519,6 +522,10 @@ def shrink(plan):
     if plan["script"].get("dur_default", 0) != 0:
         c = P()
         c["script"]["dur_default"] = 0.0
+        yield c
+    if plan["script"].get("kg_form"):
+        c = P()
+        del c["script"]["kg_form"]
         yield c
     if plan["script"].get("hist"):
         c = P()
